@@ -15,7 +15,7 @@ for d in sorted(glob.glob(os.path.join(ROOT, "seeded", "*"))):
     meta.setdefault("demonstration", demo[0] if demo else "")
     meta.setdefault("confirmed", "tools/seeded2.sh: (a) existing suite green with the change, (b) demonstration fails with the change, (c) passes without it; check run against a scratch copy of /repo with the patch applied (VERIF_REPO), /repo itself untouched")
     rp = os.path.join(d, "result.json")
-    if os.path.exists(rp):
+    if os.path.exists(rp) and not meta.get("neutralised"):
         r = json.load(open(rp))
         legs = sorted({l for run in r.get("runs", []) for l in run["legs"]})
         meta["caught"] = r.get("caught")
